@@ -207,7 +207,42 @@ func main() {
 		}
 		t, _ := hex.DecodeString(r.Text)
 		x, _ := hex.DecodeString(r.Expected)
-		run(r.Kind, e, string(t), string(x), r.HasExp)
+		if strings.HasPrefix(r.Kind, "end-to-end:") {
+			// re-run the document on the recorded way in; report what data_dir came out
+			dir, err := os.MkdirTemp("", "verif-c37r-")
+			if err != nil {
+				panic(err)
+			}
+			defer os.RemoveAll(dir)
+			file := dir + "/config.yaml"
+			os.WriteFile(file, t, 0o644)
+			os.WriteFile(dir+"/not-a-binary", []byte("x"), 0o644)
+			setEnv(e)
+			var cfg *config.Config
+			switch strings.TrimPrefix(r.Kind, "end-to-end:") {
+			case "Parse":
+				cfg, err = config.Parse(t)
+			case "Load":
+				cfg, err = config.Load(file)
+			default:
+				cfg, _, err = config.LoadOrEmbeddedFrom(dir+"/not-a-binary", file)
+			}
+			// single pass: data_dir must be what one expansion of the text gives
+			setEnv(e)
+			once, perr := config.Parse(t)
+			if err != nil || perr != nil {
+				c.Fail("parse-error", fmt.Sprintf("%s: %v / %v", r.Kind, err, perr), r)
+			} else if cfg.Agent.DataDir != once.Agent.DataDir || strings.Contains(string(t), "${DD}") && cfg.Agent.DataDir != e["DD"] {
+				c.Fail("end-to-end-expansion-wrong", fmt.Sprintf("%s: data_dir %q (config.Parse gives %q, environment %v)", r.Kind, cfg.Agent.DataDir, once.Agent.DataDir, e), r)
+			}
+			c.Case("replay|"+r.Kind, true, r)
+			body.Int(0)
+			body.Ref("")
+			body.Ref("")
+			nCases++
+		} else {
+			run(r.Kind, e, string(t), string(x), r.HasExp)
+		}
 	} else {
 		// fixed witnesses first: documented forms and boundary spellings
 		base := envT{"A": "$B", "B": "x", "E": "", "HOME_DIR": "/home/u", "P": "${A}"}
